@@ -2,7 +2,7 @@
    Statements only; proofs are in Proofs/LexerRanges.v. *)
 From Coq Require Import List NArith ZArith Bool Arith.
 From Abasic Require Import Model.Bytes Model.Num Model.Token Model.Data Model.Lexer Gen.Tables
-     Proofs.LexerRanges.
+     Proofs.LexerRanges Proofs.LexerRetok.
 Import ListNotations.
 Local Open Scope nat_scope.
 
@@ -51,9 +51,23 @@ Theorem C13_fuel : forall fuel pos s acc, length s < fuel ->
   tokenize_from fuel pos s acc = tokenize_from (S (length s)) pos s acc.
 Proof. exact tokenize_from_fuel. Qed.
 
-(* Not proved here (validated by the re-tokenization oracle on the
-   implementation and by the correspondence): tokenizing the text of a range
-   on its own yields exactly that one token (C13_retok). *)
+(* tokenizing the text of a range on its own yields exactly that one token —
+   for every line whatsoever (also the tokens in front of an error).  Every
+   matcher is prefix-stable: what it decides it decides from the bytes it
+   consumes (the look-aheads included: the keyword look-ahead inside
+   identifiers, the second character of `<=` `<>` `>=` behind blanks, blanks
+   inside numbers, the DATA item parser stopping at a colon as at the end), and
+   a matcher that does not match a text matches no prefix of it
+   (Proofs/LexerRetok.v). *)
+Theorem C13_retok : forall line skip ts, skip <= length line -> tokenize line skip = TokOk ts ->
+  Forall (fun r => tokenize (slice line (fst (snd r)) (snd (snd r))) 0
+                   = TokOk [(fst r, (0, snd (snd r) - fst (snd r)))]) ts.
+Proof. exact retok_ok. Qed.
+
+Theorem C13_retok_before_error : forall line skip ts e, skip <= length line -> tokenize line skip = TokErr ts e ->
+  Forall (fun r => tokenize (slice line (fst (snd r)) (snd (snd r))) 0
+                   = TokOk [(fst r, (0, snd (snd r) - fst (snd r)))]) ts.
+Proof. exact retok_err. Qed.
 
 Example C13_example :
   tokens_of (tokenize (bs "  go to 1 0:?""x""") 0)
@@ -72,3 +86,5 @@ Print Assumptions C13_remark_end.
 Print Assumptions C13_boundaries.
 Print Assumptions C13_error.
 Print Assumptions C13_fuel.
+Print Assumptions C13_retok.
+Print Assumptions C13_retok_before_error.
